@@ -122,7 +122,7 @@ def real_run(build, files, script, prof_mod):
 def run(ctx):
     ctx.prove('LPVerif.Props.C09', 'LPVerif/Props/C09.lean', drivers=('Select', 'FS'))
     build = ctx.build()
-    nprog = 25 if ctx.quick else 400
+    nprog = 40 if ctx.quick else 400
     if ctx.broken:
         nprog *= 3
     # ---- generated programs x selections
@@ -281,7 +281,7 @@ def run(ctx):
         if 'harness_error' in r:
             ctx.broken.append(('harness', r['harness_error'][-1200:]))
     # ---- oracle: real kernprof runs
-    nreal = 36 if ctx.quick else 500
+    nreal = 60 if ctx.quick else 500
     sample = ctx.rng.fork('real').sample(cases, min(nreal, len(cases)))
     # crafted cases for the recorded findings run first, so that a change in them is always seen
     def crafted(imports_calls, sel, defs=()):
